@@ -482,7 +482,10 @@ func (tr JUnitReporter) Publish(_ context.Context, r report.Report) error {
 	violationsPerFile := map[string][]report.Violation{}
 
 	for _, violation := range r.Violations { //nolint:gocritic
-		files = append(files, violation.Location.File)
+		if _, seen := violationsPerFile[violation.Location.File]; !seen {
+			files = append(files, violation.Location.File)
+		}
+
 		violationsPerFile[violation.Location.File] = append(violationsPerFile[violation.Location.File], violation)
 	}
 
